@@ -3,6 +3,7 @@ package rules
 import (
 	"fmt"
 	"go/token"
+	"go/types"
 	"strings"
 
 	"adgverif/an"
@@ -24,13 +25,14 @@ func init() {
 				"reply, and that function accepts only replies whose ID, question count, question type and (case-insensitively) " +
 				"name equal the request's.",
 			NotCovered: "the up/down state machine over all fault sequences and the timing of the backoff (run-time quantities).",
-			Rules: map[string]string{"C17-R1": "ServeDNS fail-over table", "C17-R2": "who replaces the active set, under which lock and gate",
+			Rules: map[string]string{"C17-R7": "upstream connection pool: Get hands out only connections that passed the idle-expiry test (expired ones are closed), Put queues or closes", "C17-R1": "ServeDNS fail-over table", "C17-R2": "who replaces the active set, under which lock and gate",
 				"C17-R3": "health probe state table", "C17-R5": "configuration wiring: main servers, fallback servers and health-check settings of the configuration reach the handler's fields of the same meaning",
 				"C17-R4": "reply validation tables"},
 		}})
 }
 
 func runC17(c *an.Ctx) {
+	c17Pool(c)
 	// ---- C17-R6: builder wiring of the components this property rests on
 	c.Floor("C17-R6", 1)
 	builderWiring(c, "C17-R6", map[string][]string{
@@ -856,4 +858,134 @@ func runC17(c *an.Ctx) {
 			return fmt.Sprintf("accepted=%v (ID, one question, type and case-insensitive name must match)", ok)
 		},
 	})
+}
+
+// c17Pool checks the upstream connection pool: Get hands out a pooled
+// connection only after the idle-expiry test said "not expired" (an expired one
+// is closed and the next one tried), stamps it with the current time, and
+// creates a new connection when the pool is empty; Put either queues the
+// connection or closes it (never drops it), and a closed pool closes it.
+func c17Pool(c *an.Ctx) {
+	c.Floor("C17-R7", 2)
+	const get = "dnsserver/pool.(*Pool).Get"
+	if fn := c.Fn(get); fn == nil {
+		c.Und("C17-R7", get, token.NoPos, "anchor not found")
+	} else {
+		c.Analysed(get)
+		var sel *ssa.Select
+		an.Instrs(fn, func(in ssa.Instruction) {
+			if s, ok := in.(*ssa.Select); ok {
+				sel = s
+			}
+		})
+		bad := ""
+		n := 0
+		if sel == nil {
+			bad = "no receive from the pool channel"
+		}
+		for _, r := range an.Returns(fn) {
+			if len(r.Results) != 2 {
+				continue
+			}
+			ex, ok := r.Results[0].(*ssa.Extract)
+			if !ok || sel == nil || ex.Tuple != ssa.Value(sel) {
+				continue
+			}
+			// a pooled connection is returned: the expiry test must have failed on this path
+			n++
+			fresh, stamped := false, false
+			for _, e := range an.DominatingConds(r.Block()) {
+				if call, isCall := e.If.Cond.(*ssa.Call); isCall && strings.HasSuffix(an.CalleeName(call), "pool.isExpired") && !e.Branch && call.Call.Args[0] == ssa.Value(ex) {
+					if ap, _ := an.AccessPath(call.Call.Args[1]); ap == "p0.IdleTimeout" {
+						fresh = true
+					}
+				}
+			}
+			for _, in := range r.Block().Instrs {
+				if st, isSt := in.(*ssa.Store); isSt {
+					if _, f, base, ok := an.FieldOf(st.Addr); ok && f == "lastTimeUsed" && base == ssa.Value(ex) {
+						if call, isCall := st.Val.(*ssa.Call); isCall && an.CalleeName(call) == "time.Now" {
+							stamped = true
+						}
+					}
+				}
+			}
+			if !fresh {
+				bad = "a pooled connection is handed out without the idle-expiry test against the pool's IdleTimeout"
+			} else if !stamped {
+				bad = "the connection's last-use time is not renewed when it is handed out"
+			}
+		}
+		if n == 0 && bad == "" {
+			bad = "no path returns a pooled connection"
+		}
+		// the expired branch closes the connection
+		closed := false
+		for _, call := range an.Calls(fn) {
+			if call.Common().IsInvoke() && call.Common().Method.Name() == "Close" {
+				for _, e := range an.DominatingConds(call.Block()) {
+					if cc, isCall := e.If.Cond.(*ssa.Call); isCall && strings.HasSuffix(an.CalleeName(cc), "pool.isExpired") && e.Branch {
+						closed = true
+					}
+				}
+			}
+		}
+		if bad == "" && !closed {
+			bad = "an expired connection is not closed"
+		}
+		if bad == "" && len(an.CallsTo(fn, "(*github.com/AdguardTeam/AdGuardDNS/internal/dnsserver/pool.Pool).Create")) == 0 {
+			created := false
+			for _, call := range an.Calls(fn) {
+				if strings.HasSuffix(an.CalleeName(call), "pool.Pool).Create") {
+					created = true
+				}
+			}
+			if !created {
+				bad = "an empty pool does not create a connection"
+			}
+		}
+		c.Check(bad == "", "C17-R7", get+" hands out only fresh connections", fn.Pos(),
+			"pooled connections pass the idle-expiry test, are re-stamped, expired ones are closed, an empty pool creates one", bad)
+	}
+	const put = "dnsserver/pool.(*Pool).Put"
+	if fn := c.Fn(put); fn == nil {
+		c.Und("C17-R7", put, token.NoPos, "anchor not found")
+	} else {
+		c.Analysed(put)
+		// every path to a return disposes of the connection: queued (select send), closed, or handed to closeConn
+		disposes := func(in ssa.Instruction) bool {
+			switch x := in.(type) {
+			case *ssa.Select:
+				for _, st := range x.States {
+					if st.Dir == types.SendOnly && st.Send == ssa.Value(fn.Params[1]) {
+						return true
+					}
+				}
+			case ssa.CallInstruction:
+				n := an.CalleeName(x)
+				if strings.HasSuffix(n, "pool.Pool).closeConn") || strings.HasSuffix(n, "pool.Conn).Close") || (x.Common().IsInvoke() && x.Common().Method.Name() == "Close") {
+					return true
+				}
+			}
+			return false
+		}
+		_, leak := an.ReachesExitAvoiding(fn.Blocks[0], 0, disposes, false)
+		// after the select, the not-sent case must close
+		bad := ""
+		if leak {
+			bad = "a path returns without queueing or closing the connection"
+		}
+		an.Instrs(fn, func(in ssa.Instruction) {
+			if s, ok := in.(*ssa.Select); ok && !s.Blocking {
+				// the default case: index != 0
+				for _, call := range an.Calls(fn) {
+					if strings.HasSuffix(an.CalleeName(call), "pool.Conn).Close") || (call.Common().IsInvoke() && call.Common().Method.Name() == "Close") {
+						return
+					}
+				}
+				bad = "a connection that does not fit into the pool is not closed"
+			}
+		})
+		c.Check(bad == "", "C17-R7", put+" queues or closes the connection", fn.Pos(), "the connection is queued, or closed when the pool is full or closed", bad)
+	}
 }
